@@ -1,6 +1,7 @@
 package main
 
 import (
+	"go/types"
 	"strings"
 
 	"golang.org/x/tools/go/ssa"
@@ -12,13 +13,20 @@ func init() {
 		Decides: "(R06.0) LastPoint.Before answers for a different height with exactly `point.Height() > last.Height()` and consults the same-height rules only when the heights are equal; IsNewVoteproofbyPoint's extra acceptance requires same point, not-lower stage, last not majority and the new one majority; " +
 			"(R06.1) the ballotbox's last point is replaced only by SetLastPoint's closure and only after last.Before(point, isSuffrageConfirm) was true; isNewBallot never stores; " +
 			"(R06.2) the last-voteproofs store is written only by Set/ForceSetLast/fillMissing under its write lock; Set overwrites only after IsNewVoteproof was true (or nothing was stored yet); fillMissing fills only empty slots; " +
-			"(R06.3) ballots are recorded and records counted only for stage points ahead of the last point; (R06.4) the state machine hands a voteproof to the handler only if LastVoteproofsHandler.IsNew says so.",
+			"(R06.3) ballots are recorded and records counted only for stage points ahead of the last point; (R06.4) the state machine hands a voteproof to the handler only if LastVoteproofsHandler.IsNew says so.; (R06.9) a move back to an earlier round or stage is decided with a memory of the positions already taken, not from the current position alone — violated today, known finding; (R06.8) the ballotbox's filter for suffrage-confirm vote records judges a voteproof new only through IsNewVoteproof or for a height not below the last point's; (R06.7) when LastVoteproofsHandler.Set takes an INIT voteproof, a stored ACCEPT voteproof of the same or a later point is dropped, so that the judged position is the one taken",
 		NotDecided: "that the same-height comparison tables (beforeSamePoint/beforeNotSamePoint) implement the stated order for every (round, stage, majority, suffrage-confirm) combination: pure comparison logic over runtime values.",
 		Run:        runC06,
 	})
 }
 
 func runC06(c *Ctx) {
+	// R06.8: voteproofs for lower heights are always rejected — also by the ballotbox's own filter for
+	// suffrage-confirm vote records
+	c.Rule("R06.8", "MustPass")
+	if fn := c.Need("isaac/states.isNewVoteproofWithSuffrageConfirmFunc$1"); fn != nil {
+		c.MP(fn, "a voteproof is judged new only by IsNewVoteproof or if its height is not below the last point's", c.ReturnsD(fn, 0, "true"), 1,
+			GTrue("isaac.IsNewVoteproof(last, vp)"), GCmp("vp.Point().Height()", ">=", "last.Height()"), GCmp("vp.Point().Height()", "==", "last.Height()"))
+	}
 	// R06.0 ------------------------------------------------------------------------------------
 	c.Rule("R06.0", "MustPass")
 	if fn := c.Need("isaac.(LastPoint).Before"); fn != nil {
@@ -65,6 +73,25 @@ func runC06(c *Ctx) {
 		for _, r := range nonMatchingReturns(c, fn, 0, "true", "false") {
 			c.Report(fn, "only constant results", c.InstrPos(r), false, c.D(RetVal(r.(*ssa.Return), 0)))
 		}
+		// R06.9: "the same position is never taken twice": a move back to an earlier round/stage (the
+		// suffrage-confirm exception) is decided from the current position alone, which cannot know
+		// whether that earlier position was already taken; it needs some further memory of the receiver.
+		c.Rule("R06.9", "MustPass")
+		var back []ssa.Instruction
+		for _, r := range trues {
+			if !allOK(c.MustPass(fn, nil, []ssa.Instruction{r}, fwd)) {
+				back = append(back, r)
+			}
+		}
+		if len(back) == 0 {
+			c.floors["R06.9 backward moves (0 is fine: none allowed)"] = [2]int{0, 0}
+		}
+		for _, r := range back {
+			ok := allOK(c.MustPass(fn, nil, []ssa.Instruction{r}, GReadsOtherField("l", "StagePoint", "isMajority", "isSuffrageConfirm")))
+			c.Report(fn, "a move back to an earlier round or stage consults a memory of the positions already taken", c.InstrPos(r), ok,
+				"the answer depends only on the current position (stage point, majority, suffrage-confirm): the same suffrage-confirm position is new again after every non-majority position of the height")
+		}
+		c.Rule("R06.0b", "MustPass")
 	}
 	if fn := c.Need("isaac.(LastPoint).beforeSamePoint"); fn != nil {
 		trues := c.ReturnsD(fn, 0, "true")
@@ -159,17 +186,41 @@ func runC06(c *Ctx) {
 	c.OnlyIn("store LastVoteproofsHandler.last", c.WhoStores("LastVoteproofsHandler", "last"), 0, allowed...)
 	c.OnlyIn("call fillMissing", c.WhoCalls("(*isaac.LastVoteproofsHandler).fillMissing"), 1, "isaac.(*LastVoteproofsHandler).Set")
 	if fn := c.Need("isaac.(*LastVoteproofsHandler).Set"); fn != nil {
+		// R06.7: after an INIT voteproof was taken the judged position (Cap) is that voteproof: an ACCEPT
+		// voteproof of the same or a later point that is still stored (only possible when a suffrage
+		// confirm of an earlier round was taken) is dropped
+		c.Rule("R06.7", "MustPass")
+		for _, st := range c.StoresD(fn, "&l.last.ivp") {
+			var ends []ssa.Instruction
+			for _, r := range Returns(fn) {
+				if r.Block().Comment != "recover" {
+					ends = append(ends, r)
+				}
+			}
+			c.MPFrom(fn, st, "after an INIT voteproof was taken no ACCEPT voteproof of the same or a later point stays stored", ends, 1,
+				GNil("l.last.avp"), GCmp("l.last.avp.Point().Point.Compare(vp.Point()*)", "<", "0"), GStoredVal("nil"))
+		}
+		c.Rule("R06.2", "MustPass")
 		c.Rule("R06.2a", "MustPass")
-		sts := c.StoresD(fn, "&l.last.*")
+		notNil := func(in []ssa.Instruction) []ssa.Instruction { // dropping a slot (nil) is not an overwrite with a voteproof
+			var out []ssa.Instruction
+			for _, i := range in {
+				if c.D(i.(*ssa.Store).Val) != "nil" {
+					out = append(out, i)
+				}
+			}
+			return out
+		}
+		sts := notNil(c.StoresD(fn, "&l.last.*"))
 		isNew := GTrue("isaac.IsNewVoteproof(isaac.NewLastPointFromVoteproof(l.last.Cap())#0, vp)")
 		c.MP(fn, "overwrite only for a new voteproof (or empty store)", sts, 3, isNew, GNil("l.last.Cap()"))
 		c.MP(fn, "overwrite only if the last point could be derived", sts, 3, GOk("isaac.NewLastPointFromVoteproof(l.last.Cap())"), GNil("l.last.Cap()"))
 		c.StoredIs(fn, "stored value is the given voteproof", sts, 3, "vp")
 		c.MP(fn, "INIT slot takes INIT voteproofs", c.StoresD(fn, "&l.last.ivp"), 1, GCmp("vp.Point().Stage()", "==", "\"INIT\""))
-		c.MP(fn, "ACCEPT slot takes ACCEPT voteproofs", c.StoresD(fn, "&l.last.avp"), 1, GCmp("vp.Point().Stage()", "==", "\"ACCEPT\""))
+		c.MP(fn, "ACCEPT slot takes ACCEPT voteproofs", notNil(c.StoresD(fn, "&l.last.avp")), 1, GCmp("vp.Point().Stage()", "==", "\"ACCEPT\""))
 		c.MP(fn, "majority slot takes majority voteproofs", c.StoresD(fn, "&l.last.mvp"), 1, GCmp("vp.Result()", "==", "\"MAJORITY\""))
 		c.Rule("R06.2b", "LockHeld")
-		c.Held(fn, nil, "stores under the write lock", sts, 3, "&l.l", LW)
+		c.Held(fn, nil, "stores under the write lock", c.StoresD(fn, "&l.last.*"), 3, "&l.l", LW)
 		c.Held(fn, nil, "fillMissing under the write lock", c.CallsD(fn, "l.fillMissing(*)"), 1, "&l.l", LW)
 	}
 	if fn := c.Need("isaac.(*LastVoteproofsHandler).ForceSetLast"); fn != nil {
@@ -227,4 +278,42 @@ func runC06(c *Ctx) {
 		}
 		c.MP(fn, "unconditional acceptance only when nothing is stored", c.ReturnsD(fn, 0, "true"), 1, GNil("l.last.Cap()"))
 	}
+}
+
+// GReadsOtherField: the edge leaves a condition that depends on a field of the receiver recv other
+// than the listed ones — "the decision also consulted some other memory of the receiver".
+func GReadsOtherField(recv string, known ...string) Gate {
+	kn := map[string]bool{}
+	for _, k := range known {
+		kn[k] = true
+	}
+	return Gate{Name: "a condition over a field of " + recv + " other than " + strings.Join(known, ", "), Edges: func(p *Prog, ifi *ssa.If) (bool, bool) {
+		other := false
+		for x := range p.BackSlice(ifi.Cond) {
+			var base ssa.Value
+			var st *types.Struct
+			idx := -1
+			switch f := x.(type) {
+			case *ssa.Field:
+				base, idx = f.X, f.Field
+				st, _ = f.X.Type().Underlying().(*types.Struct)
+			case *ssa.FieldAddr:
+				base, idx = f.X, f.Field
+				if pt, ok := f.X.Type().Underlying().(*types.Pointer); ok {
+					st, _ = pt.Elem().Underlying().(*types.Struct)
+				}
+			}
+			if st == nil || idx < 0 {
+				continue
+			}
+			d := p.D(base)
+			if d != recv && d != "&"+recv {
+				continue
+			}
+			if !kn[st.Field(idx).Name()] {
+				other = true
+			}
+		}
+		return other, other
+	}}
 }
